@@ -509,6 +509,16 @@ def _v_dispatcher_drops_ne_var(tree):
     M.replace_expr(g, lambda e: isinstance(e, ast.Compare) and M.src_is(e, "kind == 'ne_var'"), M.expr("kind == 'ne_var_'"))
 
 
+def _v_capacity_sizes_off_by_one(tree):
+    g = M.find_func(tree, "SATEncoder._encode_capacity_constraint")
+    M.replace_expr(g, lambda e: M.src_is(e, "range(1, n + 1)"), M.expr("range(1, n)"))
+
+
+def _v_sum_eq_two_vars_forbids_nothing(tree):
+    g = M.find_func(tree, "SATEncoder._encode_sum_eq")
+    M.replace_expr(g, lambda e: M.src_is(e, "val2 < v2.lb or val2 > v2.ub"), M.expr("val2 < v2.lb and val2 > v2.ub"))
+
+
 def _v_eq_var_one_direction(tree):
     g = M.find_func(tree, "SATEncoder._encode_eq_var")
     M.replace_stmt(g, lambda s: isinstance(s, ast.Expr) and M.src_is(s.value, "self._clauses.append([var1.bool_vars[val], -var2.bool_vars[val]])"), [])
@@ -557,6 +567,8 @@ VARIANTS = [
     M.Variant("int - x builds a 'sub' tuple (read as x - int)", "solvor/cp.py", _v_rsub_as_sub, "C06-O12"),
     M.Variant("encoder dispatcher has no arm for ne_var", ENC, _v_dispatcher_drops_ne_var, "C06-O12"),
     M.Variant("eq_var encoded in one direction only", ENC, _v_eq_var_one_direction, "C06-O13"),
+    M.Variant("capacity subsets enumerated up to n - 1 tasks", ENC, _v_capacity_sizes_off_by_one, "C06-O13"),
+    M.Variant("two-variable sum_eq never excludes a value", ENC, _v_sum_eq_two_vars_forbids_nothing, "C06-O13"),
     M.Variant("ne_const asserts the value instead of excluding it", ENC, _v_ne_const_positive, "C06-O13"),
     M.Variant("twin: reformat", ENC, _t_reformat, None),
 ]
